@@ -587,13 +587,25 @@ def fix4(run):
                 if re.search(r"max_iterations$", describe_origin(f, f.origin_op(st["rv"]["r"]))):
                     cnt.add(f.copy_root(op_local(st["rv"]["l"])))
         cnt = sorted(cnt)
+        ranged = None
+        if not cnt:
+            # `for counter in 1..=max_iterations`: bounded by construction
+            from rules_sym import deep as _deep
+            for l in range(f.arg_count + 1, len(f.locals)):
+                ds = f.full_defs(l)
+                if len(ds) == 1 and ds[0][0] == "stmt" and ds[0][3]["k"] == "assign" and ds[0][3]["rv"]["k"] == "use":
+                    e = _deep(f, ds[0][3]["rv"]["op"], 5)
+                    if re.fullmatch(r"Iterator::next\(RangeInclusive::new\(1_usize, [^()]*max_iterations\)\)@Some\.0", e) or re.fullmatch(r"Iterator::next\(RangeInclusive\{start: 1_usize, end: [^{}]*max_iterations[^{}]*\}\)@Some\.0", e):
+                        ranged = f.copy_root(l) if ranged is None else min(ranged, f.copy_root(l))
+            if ranged is not None:
+                cnt = [ranged]
         if len(cnt) != 1:
             run.violation(R, "%s|%s|counter" % (R, f.id), f.loc(), "mechanism not found: loop counter `iter_count` in %s" % f.id)
             continue
         c = cnt[0]
         ok = True
         why = ""
-        for dd in f.full_defs(c):
+        for dd in (f.full_defs(c) if ranged is None else []):
             st = dd[3] if dd[0] == "stmt" else None
             if st is None:
                 ok = False
